@@ -352,10 +352,30 @@ def cdist_sym(XA, XB, metric='euclidean', **kw):
     XA = _np.asarray(XA, dtype=object)
     XB = _np.asarray(XB, dtype=object)
     out = _np.empty((XA.shape[0], XB.shape[0]), dtype=object)
+    V = None
+    if metric == 'seuclidean':
+        # scipy estimates the per-feature variance (ddof=1) from *all rows handed to this call* (XA stacked on XB): the
+        # distance to a row depends on which other rows are passed along with it.  Zero variance is outside the model.
+        if kw.get('V') is not None:
+            raise Unsupported('cdist seuclidean with an explicit V')
+        allrows = _np.concatenate((XA, XB))
+        n = allrows.shape[0]
+        if n < 2:
+            raise Unsupported('seuclidean variance of a single row')
+        V = []
+        c = cur()
+        for k in range(allrows.shape[1]):
+            mu = allrows[:, k].sum() / n
+            v = _sv(((allrows[:, k] - mu) * (allrows[:, k] - mu)).sum() / (n - 1))
+            c.assume(v.e > 0)
+            c.mark_pos(v.e)
+            V.append(v)
     for i in range(XA.shape[0]):
         for j in range(XB.shape[0]):
             a, b = XA[i], XB[j]
-            if metric == 'cityblock':
+            if metric == 'seuclidean':
+                d = sqrt_registered(_sv(sum((a[k] - b[k]) * (a[k] - b[k]) / V[k] for k in range(len(a)))))
+            elif metric == 'cityblock':
                 d = sum(_absdiff(a[k], b[k]) for k in range(len(a)))
             elif metric == 'chebyshev':
                 d = smax([_absdiff(a[k], b[k]) for k in range(len(a))])
